@@ -315,14 +315,25 @@ pub enum Hint {
     Unknown,
     /// (lower slack, upper slack): reports (n - lo, Some(n + hi))
     Loose(usize, usize),
+    /// what filtering adaptors report: (0, Some(n + hi)) — no lower bound, a finite upper bound
+    UpperOnly(usize),
 }
 
 impl Hint {
     pub fn gen(rng: &mut Rng) -> Hint {
-        match rng.below(4) {
+        match rng.below(5) {
             0 | 1 => Hint::Exact,
             2 => Hint::Unknown,
+            3 => Hint::UpperOnly(rng.usize(4)),
             _ => Hint::Loose(rng.usize(5), rng.usize(5)),
+        }
+    }
+    pub fn report(self, n: usize) -> (usize, Option<usize>) {
+        match self {
+            Hint::Exact => (n, Some(n)),
+            Hint::Unknown => (0, None),
+            Hint::Loose(lo, hi) => (n.saturating_sub(lo), Some(n + hi)),
+            Hint::UpperOnly(hi) => (0, Some(n + hi)),
         }
     }
 }
@@ -377,12 +388,7 @@ impl<T: Clone> Iterator for SimIter<T> {
     }
     fn size_hint(&self) -> (usize, Option<usize>) {
         self.log.borrow_mut().size_hint_calls += 1;
-        let n = self.items.len() - self.next;
-        match self.hint {
-            Hint::Exact => (n, Some(n)),
-            Hint::Unknown => (0, None),
-            Hint::Loose(lo, hi) => (n.saturating_sub(lo), Some(n + hi)),
-        }
+        self.hint.report(self.items.len() - self.next)
     }
 }
 
@@ -393,13 +399,14 @@ impl<T: Clone> ExactSizeIterator for SimIter<T> {}
 pub struct SimCloneIter<T> {
     items: Rc<Vec<T>>,
     next: usize,
+    hint: Hint,
     log: Rc<RefCell<IterLog>>,
 }
 
 impl<T: Clone> SimCloneIter<T> {
-    pub fn new(items: Rc<Vec<T>>) -> (SimCloneIter<T>, Rc<RefCell<IterLog>>) {
+    pub fn new(items: Rc<Vec<T>>, hint: Hint) -> (SimCloneIter<T>, Rc<RefCell<IterLog>>) {
         let log = Rc::new(RefCell::new(IterLog::default()));
-        (SimCloneIter { items, next: 0, log: log.clone() }, log)
+        (SimCloneIter { items, next: 0, hint, log: log.clone() }, log)
     }
 }
 
@@ -407,7 +414,7 @@ impl<T: Clone> Clone for SimCloneIter<T> {
     fn clone(&self) -> Self {
         hook::src_event();
         self.log.borrow_mut().clones += 1;
-        SimCloneIter { items: self.items.clone(), next: self.next, log: self.log.clone() }
+        SimCloneIter { items: self.items.clone(), next: self.next, hint: self.hint, log: self.log.clone() }
     }
 }
 
@@ -425,5 +432,9 @@ impl<T: Clone> Iterator for SimCloneIter<T> {
             log.pulls_after_exhaustion += 1;
             None
         }
+    }
+    fn size_hint(&self) -> (usize, Option<usize>) {
+        self.log.borrow_mut().size_hint_calls += 1;
+        self.hint.report(self.items.len() - self.next)
     }
 }
